@@ -122,25 +122,35 @@ theorem scanForText_spec [NumOps N] (kw : List (Str × TK)) {st : LexState N} {p
     {start : Nat} (kind : TK)
     (h : st.src = p ++ post) (hstart : start = ulen p) (hl : LineOK st.line st.lineStart p)
     (hsmall : ulen st.src < 4294967296) (hne : text ≠ []) (hno : ∀ x ∈ text, x ≠ '\n')
+    (hascii : ∀ x ∈ text, x.toNat < 128)
     (h1 : kind ≠ .newline) (h2 : kind ≠ .number) (h3 : kind ≠ .stringLit) (h4 : kind ≠ .comment) :
     scanForText st start text kind = .ok none ∨
     ∃ tok post', scanForText st start text kind =
         .ok (some { token := tok, stop := start + ulen text, newlines := 0, newLineStart := none }) ∧
-      post = text ++ post' ∧ tok.spelling = text ∧ tok.kind = kind ∧ TokAt kw p tok := by
+      post = tok.spelling ++ post' ∧ ulen tok.spelling = ulen text ∧
+      tok.spelling.map toAsciiLower = text.map toAsciiLower ∧
+      (∀ x ∈ tok.spelling, x ≠ '\n') ∧ tok.kind = kind ∧ TokAt kw p tok := by
   have hsub : sub st start (ulen st.src) = .ok post :=
     sub_ok (pre := p) (mid := post) (post := []) (by simp [h]) hstart (by rw [h]; simp)
   simp only [scanForText, hsub, Outcome.bind_ok]
-  cases hsp : stripPrefix? text post with
-  | none => left; rfl
-  | some r =>
+  cases hsp : startsWithIgnoreAsciiCase text post with
+  | false => left; rfl
+  | true =>
     right
-    have hpost := stripPrefix?_eq hsp
-    have hmk := makeTokenFrom_ok (st := st) (pre := p) (mid := text) (post := r) kind none
-      (by rw [h, hpost]; simp) hstart rfl hl.le hsmall
+    obtain ⟨sp, r, hpost, hu, hlen, hci⟩ := startsWithIgnoreAsciiCase_spec hsp hascii
+    have hnosp := ne_nl_of_map_toAsciiLower_eq hci hno
+    have hmk := makeTokenFrom_ok (st := st) (pre := p) (mid := sp) (post := r) kind none
+      (by rw [h, hpost]; simp) hstart hu.symm hl.le hsmall
     simp only [hmk, Outcome.bind_ok]
-    refine ⟨_, r, rfl, hpost, rfl, rfl, ?_⟩
-    have hnn : text ≠ ['\n'] := fun he => hno '\n' (by simp [he]) rfl
-    exact TokAt.of_raw hl hstart hne hnn (NoNl_of_forall hno) (by simp) (PayloadOK.plain h1 h2 h3 h4)
+    refine ⟨_, r, rfl, hpost, hu, hci, hnosp, rfl, ?_⟩
+    have hne' : sp ≠ [] := by
+      intro he; subst he
+      cases text with
+      | nil => exact hne rfl
+      | cons d ds => simp at hlen
+    have hnn : sp ≠ ['\n'] := fun he => hnosp '\n' (by simp [he]) rfl
+    exact TokAt.of_raw hl hstart hne' hnn (NoNl_of_forall hnosp) (by simp)
+      (PayloadOK.plain h1 h2 h3 h4)
 
 theorem scanApostropheSuffix_spec [NumOps N] (kw : List (Str × TK)) {st : LexState N}
     {p post : Str} {start : Nat}
@@ -153,14 +163,16 @@ theorem scanApostropheSuffix_spec [NumOps N] (kw : List (Str × TK)) {st : LexSt
       post = tok.spelling ++ post' ∧ (∀ x ∈ tok.spelling, x ≠ '\n') ∧ TokAt kw p tok := by
   unfold scanApostropheSuffix
   rcases scanForText_spec kw (text := str% "'s") .apostropheS h hstart hl hsmall (by simp)
-      (by decide) (by decide) (by decide) (by decide) (by decide) with h1 | ⟨tok, post', h1, h2, h3, _, h5⟩
+      (by decide) (by decide) (by decide) (by decide) (by decide) (by decide) with
+    h1 | ⟨tok, post', h1, h2, h3, _, h4, _, h5⟩
   · rw [h1]; simp only [Outcome.bind_ok]
     rcases scanForText_spec kw (text := str% "'re") .apostropheRE h hstart hl hsmall (by simp)
-        (by decide) (by decide) (by decide) (by decide) (by decide) with h1 | ⟨tok, post', h1, h2, h3, _, h5⟩
+        (by decide) (by decide) (by decide) (by decide) (by decide) (by decide) with
+      h1 | ⟨tok, post', h1, h2, h3, _, h4, _, h5⟩
     · left; exact h1
-    · right; refine ⟨tok, post', ?_, by rw [h3]; exact h2, by rw [h3]; decide, h5⟩
+    · right; refine ⟨tok, post', ?_, h2, h4, h5⟩
       rw [h1, h3]
-  · right; refine ⟨tok, post', ?_, by rw [h3]; exact h2, by rw [h3]; decide, h5⟩
+  · right; refine ⟨tok, post', ?_, h2, h4, h5⟩
     rw [h1, h3]; rfl
 
 theorem maybeFollowed_spec [NumOps N] (kw : List (Str × TK)) {st : LexState N} {pre post : Str}
